@@ -95,6 +95,40 @@ Theorem save_load_clean : forall (enc : cache -> string) dec cfg now c,
   dec (enc c) = Some c -> clean cfg now c -> load_cache dec cfg now (Some (enc c)) = Ok c.
 Proof. exact save_load_clean_lemma. Qed.
 
+(* ---- the store holds the cache file's path twice (write() / load): every constructor keeps them equal, and
+   then a flush writes exactly the file that is read back, touching no other file *)
+Theorem ctor_paths_agree :
+  (forall p, st_cache_path (store_new p) = st_cfg_path (store_new p)) /\
+  (forall dflt cp pa fs, let st := fst (store_from_peers_args dflt cp pa fs) in st_cache_path st = st_cfg_path st).
+Proof. exact ctor_paths_agree_lemma. Qed.
+
+Theorem flush_then_load : forall cfg now st fs,
+  st_cache_path st = st_cfg_path st -> st_disable st = false ->
+  let r := store_flush cfg now st fs in
+  exists out, fs_get (snd r) (st_cfg_path st) = Some out /\ bounded cfg out /\
+              store_load cfg now (fst r) (snd r) = Some (perform_cleanup cfg now out) /\
+              forall q, q <> st_cache_path st -> fs_get (snd r) q = fs_get fs q.
+Proof. exact flush_then_load_lemma. Qed.
+
+Theorem late_override_refuted :
+  exists cfg now pa fs raw,
+    let b := store_from_peers_args_late "default" (Some "config"%string) pa fs in
+    let st := store_add cfg now (fst b) raw in
+    let r := store_flush cfg now st (snd b) in
+    st_cache_path st <> st_cfg_path st /\
+    fs_get (snd r) "custom" = fs_get fs "custom" /\ fs_get (snd r) "config" <> fs_get fs "config" /\
+    match store_load cfg now (fst (store_from_peers_args_late "default" (Some "config"%string) pa (snd r))) (snd r) with
+    | Some c => lookup c pA = None
+    | None => False
+    end /\
+    let b' := store_from_peers_args "default" (Some "config"%string) pa fs in
+    let r' := store_flush cfg now (store_add cfg now (fst b') raw) (snd b') in
+    match store_load cfg now (fst (store_from_peers_args "default" (Some "config"%string) pa (snd r'))) (snd r') with
+    | Some c => lookup c pA <> None
+    | None => False
+    end.
+Proof. exact late_override_refuted_lemma. Qed.
+
 (* ---- atomic replacement (premise built into `fs_do`: Commit = rename replaces the target in one step,
    temporary files are private to their writer) *)
 Theorem atomic_replace : forall (valid : string -> Prop) init steps,
